@@ -121,7 +121,7 @@ def build_lib(config="mpz", hooks=True, log=None):
         # checks (or scratch trees selected with VERIF_REPO) may be using them right now
         olds = sorted((o for o in glob.glob(os.path.join(BUILD, "lib-%s-*" % config)) if o != libdir),
                       key=lambda o: os.path.getmtime(o), reverse=True)
-        for old in olds[6:]:
+        for old in olds[30:]:
             shutil.rmtree(old, ignore_errors=True)
         os.makedirs(libdir, exist_ok=True)
         _config_dir(libdir, config)
